@@ -339,6 +339,11 @@ def int_alias_discipline(chk: Check) -> None:
     st_ = [c for c in calls_in_func(sfe, '_set_interrupt_action')]
     from ..rules import Resolver as _Rs
     ok = len(mk) == 1 and len(st_) == 1 and [norm(a) for a in mk[0].args] == [sfe.params[1]] and _Rs(sfe).text(st_[0].args[0]) == norm(mk[0])
+    if not ok and 'processes.Process._create_interrupt_action' in prog.folded and len(st_) == 1 and isinstance(st_[0].args[0], ast.Name):
+        # the factory folded into this function: what is installed is, on every path, a CancellableAction built here with the interruption as its cookie
+        from ..rules import conditional_values as _cv
+        vals_ = [v for _, v in _cv(chk.ctx.facts.analyse(sfe), st_[0].args[0].id)]
+        ok = bool(vals_) and all(isinstance(v, ast.Call) and last_name(v) == 'CancellableAction' and [norm(k.value) for k in v.keywords if k.arg == 'cookie'] == [sfe.params[1]] for v in vals_)
     chk.ob('OWN-interrupt-action', sfe, ok, '_set_interrupt_action_from_exception installs the action created for that very interruption', kind='installs-created-action')
     sites = []
     for name in ('_set_interrupt_action', '_set_interrupt_action_from_exception'):
